@@ -898,12 +898,12 @@ def ops_equal(a, b, rtol, atol=1e-12):
     return True
 
 
-def merit(ops, targets):
+def merit(ops, targets, weights=None):
     m = 0.0
-    for o_, t_ in zip(ops, targets):
+    for k_, (o_, t_) in enumerate(zip(ops, targets)):
         if isinstance(o_, tuple):
             return math.nan
-        m += (o_ - t_) ** 2
+        m += ((weights[k_] if weights else 1.0) * (o_ - t_)) ** 2
     return m
 
 
@@ -1061,15 +1061,20 @@ def check_setup(ctx, setup, lines, keep):
         # re-run one (merit = sum of squared operand errors, relative to the uncompensated error)
         if setup['compensators']:
             def rerun(lens_maker):
+                # "the same compensation": the compensator the user configured (variables, operands with their
+                # targets and weights, method, tolerance), set up here directly on the lower-level public class
+                from optiland.tolerancing.compensator import CompensatorOptimizer
                 f = lens_maker()
-                tf = build_tolerancing(f, setup, samplers=False)
-                for od_i, op in enumerate(tf.operands):
-                    op.target = tol.operands[od_i].target
+                comp = CompensatorOptimizer(method=setup['method'], tol=setup['tol'])
+                for c_ in setup['compensators']:
+                    comp.add_variable(f, c_['type'], **var_kwargs(c_))
+                for od_, op_ in zip(setup['operands'], tol.operands):
+                    comp.add_operand(od_['type'], float(op_.target), float(od_.get('weight', 1.0)), operand_input(f, od_))
                 apply_row(f, setup, row, None)
                 un = evaluate_ops(f, setup)
                 with quiet():
-                    cr = tf.apply_compensators()
-                return [float(np.ravel(v)[0]) for v in tf.evaluate()], [float(v) for v in cr.values()], un
+                    comp.run()
+                return evaluate_ops(f, setup), [float(np.ravel(v.value)[0]) for v in comp.variables], un
             try:
                 got, gc, un = rerun(lambda: fresh_lens(setup, N))
             except Exception as e:  # noqa
@@ -1078,9 +1083,11 @@ def check_setup(ctx, setup, lines, keep):
             if ops_equal(row['ops'], got, 1e-6, 1e-9) and ops_equal(row['comp'], gc, 1e-6, 1e-9):
                 ctx.count('rows re-compensated (b): identical')
             else:
-                m_rec, m_b, m_0 = merit(row['ops'], targets), merit(got, targets), merit(un, targets)
+                wts_ = [float(od_.get('weight', 1.0)) for od_ in setup['operands']]
+                m_rec, m_b, m_0 = merit(row['ops'], targets, wts_), merit(got, targets, wts_), merit(un, targets, wts_)
                 worse = (not math.isfinite(m_rec) and math.isfinite(m_b)) or \
-                        (math.isfinite(m_rec) and math.isfinite(m_b) and m_rec > 10 * m_b + 1e-3 * (m_0 if math.isfinite(m_0) else m_rec))
+                        (math.isfinite(m_rec) and math.isfinite(m_b)
+                         and m_rec > 10 * m_b + 1e-3 * (m_0 if math.isfinite(m_0) else m_rec) + 10 * float(setup['tol']))
                 if worse:
                     key = None
                     if index_pert:
@@ -1136,13 +1143,12 @@ def check_setup(ctx, setup, lines, keep):
                                               options={'xatol': 1e-10, 'fatol': 1e-16, 'maxiter': 300})
             m_mine = min(float(res.fun), m_0)
             if math.isfinite(m_0) and m_0 < 1e29 and best > 10 * m_mine + 1e-2 * m_0 + 10 * float(setup['tol']) + 1e-18:
-                ctx.fail('row %d: the recorded compensation minimises the weighted sum of squares of the operand '
-                         'errors (weights as given to add_operand)' % ri, case,
-                         {'weighted merit of the recorded compensation': best, 'comp': row['comp']},
-                         {'weighted merit found by an independent minimisation': m_mine,
-                          'uncompensated': m_0, 'weights': wts})
+                # not a clause of C15 (which optimum the optimiser reaches is C14's subject): recorded as an observation
+                ctx.count('observation (c): recorded compensation clearly worse than an independent weighted minimisation')
+                ctx.drift.append({'what': 'recorded compensation worse than an independent weighted minimisation',
+                                  'row': ri, 'recorded merit': best, 'independent': m_mine, 'uncompensated': m_0})
                 break
-            ctx.count('rows checked against an independent weighted compensation (c)')
+            ctx.count('rows compared with an independent weighted minimisation (c, informational)')
 
     # ---- clause 4: prescription after run() and after reset()
     def classify(diffs, lens_now):
